@@ -11,6 +11,14 @@ pub fn stub_from_utf8(v: &[u8]) -> Result<&str, std::str::Utf8Error> {
     refmodel::models::from_utf8(v)
 }
 
+/// M8 (DESIGN.md 10.3): the *message-building* half of a failed `str` slice
+/// (`core::str::slice_error_fail_rt`: floor/ceil_char_boundary loops, re-slicing, formatting) is
+/// replaced by a bare panic.  Whether a slice fails is still decided by the real `str` indexing
+/// code; only the text of the panic message is not modelled.
+pub fn stub_slice_error_fail_rt(_s: &str, _begin: usize, _end: usize) -> ! {
+    panic!("str slice index out of range or not on a character boundary")
+}
+
 /// M9 (DESIGN.md 10.3): `core::str::count::count_chars` -> refmodel::models::count_chars
 pub fn stub_count_chars(s: &str) -> usize {
     refmodel::models::count_chars(s)
